@@ -130,6 +130,7 @@ type ContractFile struct {
 	OnWrite     []*GuardDecl
 	TypeInvs    []*GuardDecl
 	Immutable   []string
+	Stable      []string // fields only written by functions under contract (checked by a census); kept across havoc
 }
 
 var reName = regexp.MustCompile(`^([A-Za-z_][A-Za-z0-9_.\-]*):\s+(.*)$`)
@@ -472,6 +473,8 @@ func (cf *ContractFile) parseOne(path string) error {
 			for _, pat := range strings.Fields(l) {
 				cf.OnWrite = append(cf.OnWrite, &GuardDecl{Pattern: pat, Ghost: strings.TrimSpace(r)})
 			}
+		case "stable":
+			cf.Stable = append(cf.Stable, strings.Fields(rest)...)
 		case "immutable":
 			cf.Immutable = append(cf.Immutable, strings.Fields(rest)...)
 		case "typeinv":
